@@ -18,12 +18,13 @@ import (
 
 // ProcOpts configures RunProcs.
 type ProcOpts struct {
-	CheckID string   // check id the worker entry belongs to
-	Tier    string   // tier passed to the worker
-	Args    []string // extra worker arguments (the check's Worker entry maps them to the same Spec)
-	Procs   int      // number of worker processes
-	Recycle int      // requests served by one process before it is replaced
-	Env     []string
+	CheckID  string   // check id the worker entry belongs to
+	Tier     string   // tier passed to the worker
+	Args     []string // extra worker arguments (the check's Worker entry maps them to the same Spec)
+	Procs    int      // number of worker processes
+	Recycle  int      // requests served by one process before it is replaced
+	Env      []string
+	Deadline time.Time
 }
 
 type procReq struct {
@@ -111,6 +112,9 @@ func startProc(o ProcOpts) (*proc, error) {
 	args := append([]string{"worker", o.CheckID, o.Tier}, o.Args...)
 	cmd := exec.Command(os.Args[0], args...)
 	cmd.Env = append(os.Environ(), o.Env...)
+	if !o.Deadline.IsZero() {
+		cmd.Env = append(cmd.Env, fmt.Sprintf("VERIF_DEADLINE_UNIX=%d", o.Deadline.Unix()))
+	}
 	cmd.Stderr = os.Stderr
 	in, err := cmd.StdinPipe()
 	if err != nil {
